@@ -281,7 +281,8 @@ def check(case):
                 r = compare_query(kind, expected[qi], ambiguous[qi], got[qi])
                 if r is not None:
                     suffix = ""
-                    if r[0] == "order-mismatch" and fragile[0] and kind == "findall":
+                    if r[0] == "order-mismatch" and fragile[0]:
+                        # (under an outer all/3 it is the order INSIDE an inner findall list)
                         suffix = "|node-order"
                     elif r[0] == "duplicates-mismatch" and complementary_clause_pair(case):
                         suffix = "|complement"
